@@ -1,0 +1,17 @@
+//go:build verif
+
+package executor
+
+import "github.com/33cn/chain33/common/db"
+
+// VerifEnableMVCC resolves the MVCC version of stateHash for a StateDB created by
+// NewStateDB exactly as newExecutor does, so that a conformance harness can read
+// through the executor's versioned state reader without a full node (verification hook).
+func VerifEnableMVCC(kv db.KV, hash []byte) (int64, bool) {
+	s, ok := kv.(*StateDB)
+	if !ok {
+		return -1, false
+	}
+	s.enableMVCC(hash)
+	return s.version, true
+}
